@@ -241,6 +241,20 @@ func genFunction(prog *ssa.Program, cs *Contracts, fn *ssa.Function, fc *FuncCon
 		return rep
 	}
 	rst, vals := fr.run(st0)
+	for _, cl := range fc.Clauses {
+		if cl.Kind != "assertat" {
+			continue
+		}
+		fired := false
+		for k := range fr.assertFired {
+			if strings.HasPrefix(k, fmt.Sprintf("%p|", cl)) {
+				fired = true
+			}
+		}
+		if !fired {
+			panic(vcErr("assert at %q: no executed statement of the function matches the anchor", cl.Anchor))
+		}
+	}
 	fr.structuralChecks()
 	if rst != nil {
 		envE := &Env{c: c, fr: fr, st: rst, old: fr.old, names: copyMap(env0), oldNames: env0}
